@@ -35,9 +35,14 @@ Useful(c) == /\ RefStep(ref, c).res = "ok"
              /\ ~(c.op = "Rename" /\ c.p = c.q)
              /\ ~(c.op = "RemoveAll" /\ c.p \notin DOMAIN ref)
              /\ ~(c.op = "MkdirAll" /\ c.p \in DOMAIN ref)
-Pick == LET ok  == {c \in Calls : Useful(c) /\ Fits(c)}
-            all == {c \in Calls : Fits(c)}
-        IN {RandomElement(IF RandomElement(1..100) <= OkBias /\ ok # {} THEN ok ELSE all)}
+\* failing calls are mostly "near misses": every path argument exists or is the child of an existing directory
+Near(p) == p \in DOMAIN ref \/ (p # Root /\ Parent(p) \in DOMAIN ref)
+Pick == LET ok   == {c \in Calls : Useful(c) /\ Fits(c)}
+            all  == {c \in Calls : Fits(c)}
+            near == {c \in all : ~Useful(c) /\ c.op \notin Observers /\ Near(c.p) /\ (c.op = "Rename" => c.q \in DOMAIN ref)}
+            k    == RandomElement(1..100)
+        IN {RandomElement(IF k <= OkBias /\ ok # {} THEN ok
+                          ELSE IF k <= OkBias + (100 - OkBias) \div 2 /\ near # {} THEN near ELSE all)}
 
 GInit == Init /\ hist = <<>> /\ done = FALSE
 
